@@ -1198,6 +1198,8 @@ class DictTerm(PreTerm):
 
         def canonical(v):
             # numpy scalars as the equivalent Python scalars (as Value does), so the printed dictionary can be read back
+            if hasattr(v, "item") and hasattr(v, "dtype") and (not hasattr(v, "__len__")):
+                return v.item()  # any numpy scalar (int32, float32, ...)
             canonical_type = data_algebra.util.map_type_to_canonical(type(v))
             if (canonical_type is not type(v)) and (v is not None):
                 return canonical_type(v)
